@@ -251,6 +251,17 @@ def findHybrids (clusters : List Proto) (wrap : Option Int) : E (List (List Prot
 /-- a candidate together with its `core_location` -/
 abbrev CandC := Cand × Loc
 
+/-- evaluate `core_location` of every candidate -/
+def withCores (wrap : Option Int) : List Cand → E (List CandC)
+  | [] => .ok []
+  | c :: cs =>
+    match candCore wrap c with
+    | .error e => .error e
+    | .ok k =>
+      match withCores wrap cs with
+      | .error e => .error e
+      | .ok r => .ok ((c, k) :: r)
+
 def findInterleavedCandidates (cands : List CandC) : List (List Proto) :=
   let pairs := pairsWhere (fun (a b : CandC) => locationsOverlap a.2 b.2)
     (fun a b => dedup (a.1.members ++ b.1.members)) cands
@@ -315,7 +326,7 @@ def findInterleaved (clusters : List Proto) (cands : List Cand) (wrap : Option I
     : E (List (List Proto) × List Proto) :=
   -- `core_location` is evaluated (and cached) only when some comparison needs it
   let need := decide (cands.length > 1) || (!clusters.isEmpty && !cands.isEmpty)
-  match (if need then cands.mapM (fun c => (candCore wrap c).map fun k => (c, k)) else .ok []) with
+  match (if need then withCores wrap cands else .ok []) with
   | .error e => .error e
   | .ok cc =>
     let g1 := findInterleavedCandidates cc
